@@ -82,6 +82,8 @@ def run(ctx):
         ver = rng.choice("234")
         todo.append((ver, core.rand_vector(ver, rng, p_absent=rng.choice([0.1, 0.4, 0.8]))))
     todo += [("2", s) for s in core.v2_low_family()]
+    for v in "234":
+        todo += [(v, s) for s in core.singletons(v, rng, ctx.n(30, 400))]
     ctx.count(len(todo))
     objs = []
     for ver, s in todo:
